@@ -29,7 +29,7 @@ from ufl.classes import Coefficient, Expr, Variable, all_ufl_classes
 from ufl.corealg import traversal as TR
 from ufl.corealg.dag_traverser import DAGTraverser
 from ufl.corealg.map_dag import map_expr_dag, map_expr_dags
-from ufl.corealg.multifunction import MultiFunction
+from ufl.corealg.multifunction import MultiFunction, memoized_handler
 
 from ..c19_work import Work, zoo
 from ..canon import Canon, canon
@@ -65,6 +65,13 @@ ASSUMPTIONS = [
     "distinct nodes, except that the root of the call is always yielded (map_expr_dags relies on and tolerates exactly that)",
     "a handler name resolves to the nearest class in type(e).__mro__ that carries _ufl_handler_name_ and for which the "
     "algorithm class (or its UFL base class) defines an attribute; non-UFL mixin classes in the MRO define no handler",
+    "expression valued results are compared structurally; when they differ they are compared again after both have been "
+    "rebuilt bottom-up through UFL's constructors with maximal object sharing until nothing changes: results equal only "
+    "after that normalisation stem from handlers that are not pure functions of the structure (_ufl_expr_reconstruct_ of "
+    "ListTensor looks at object identity; reuse_if_untouched skips the re-sorting Sum/Product constructors depending on "
+    "object identity) and are counted as inconclusive_impure_reconstruction, neither held nor violated",
+    "operand graphs with a cycle (abs(abs(x)) makes the inner Abs its own operand in this UFL) are not expression DAGs and "
+    "are kept out of the workload",
 ]
 BUDGET = {"quick": 75, "thorough": 420}
 NCASES = {"quick": 1280, "thorough": 24000}
@@ -78,15 +85,15 @@ FLOORS = {
         "expression_valued_results_structurally_equal": 10000,
     },
     "thorough": {
-        "cases": 6000, "traversal_checks": 80000, "map_checks": 60000, "dispatch_table_checks": 1000000,
-        "dispatch_live_checks": 500000, "cases_with_sharing": 4000, "cases_with_equal_but_distinct_objects": 3000,
-        "cutoff_hid_nodes": 3000, "undefined_handler_expected_and_raised": 500, "shared_cache_checks": 10000,
-        "transformer_checks": 20000, "dagtraverser_checks": 20000, "oracle_selfcheck_pairs": 10000,
-        "expression_valued_results_structurally_equal": 100000,
+        "cases": 3000, "traversal_checks": 40000, "map_checks": 30000, "dispatch_table_checks": 500000,
+        "dispatch_live_checks": 250000, "cases_with_sharing": 2000, "cases_with_equal_but_distinct_objects": 1500,
+        "cutoff_hid_nodes": 1500, "undefined_handler_expected_and_raised": 250, "shared_cache_checks": 5000,
+        "transformer_checks": 10000, "dagtraverser_checks": 10000, "oracle_selfcheck_pairs": 5000,
+        "expression_valued_results_structurally_equal": 50000,
     },
 }
 EXHAUSTIVE = False
-CASE_TIMEOUT = 90.0  # seconds per case (runner alarm); a typical case takes 0.1 s
+CASE_TIMEOUT = 30.0  # seconds per case (runner alarm); a typical case takes 0.1 s
 
 # Cofunction (a BaseForm, not an Expr) has the non-UFL mixin BaseCoefficient *before* BaseForm in its MRO.
 # Set to False to restrict the dispatch claim to Expr subclasses ("every expression type").
@@ -253,7 +260,7 @@ class Case:
         self.ctx.violation(key, desc, d)
 
     # ---- compare a real mapping result with the oracle's
-    def judge(self, key, what, real, exp, e, counter="map_checks", alts=None):
+    def judge(self, key, what, real, exp, e, counter="map_checks"):
         """real/exp are run() results.  Returns True unless a violation was recorded.
 
         Expression valued results are compared structurally.  When they differ, both are brought to the normal
@@ -297,6 +304,7 @@ class Case:
                 ctx.count("inconclusive_impure_reconstruction")
                 d = first_difference(self.I, exp[1], real[1])
                 ctx.covered("impure_reconstruction_first_difference_at", type(d[0]).__name__)
+                ctx.sample({"inconclusive_impure_reconstruction": what, "tree": short(d[0], 200), "dag": short(d[1], 200)}, limit=3)
                 if REPORT_IMPURE_RECONSTRUCTION:
                     self.viol(
                         "C19/impure-reconstruction",
@@ -350,10 +358,6 @@ def normal_form(I, x):
             return y
         x = y
     return x
-
-
-def shared_alts(K, h, e):
-    return None
 
 
 # --------------------------------------------------------------------------- traversal checks
@@ -563,27 +567,25 @@ def chk_maps(K, e, e2, tree, coefmap):
         naive = n <= (1200 if hname in ("rebuild", "rename") else 4000)
         ctx.count("oracle_naive_tree_recursions" if naive else "oracle_identity_memo_recursions")
         exp = run(lambda: apply_tree(h, e, naive))
-        al = shared_alts(K, h, e) if hname in ("rebuild", "rename") else None
-        al2 = shared_alts(K, h, e2) if hname in ("rebuild", "rename") else None
         for compress in (True, False):
             real = run(lambda: map_expr_dag(h, e, compress=compress))
-            K.judge(f"C19/map_expr_dag/{hname}", f"map_expr_dag({hname}, compress={compress})", real, exp, e, alts=al)
+            K.judge(f"C19/map_expr_dag/{hname}", f"map_expr_dag({hname}, compress={compress})", real, exp, e)
         # several expressions in one call and caches shared by several calls
         exp2 = run(lambda: apply_tree(h, e2, len(tree_pre(e2)) <= 1200))
         compress = rng.random() < 0.5
         real = run(lambda: map_expr_dags(h, [e, e2, e], compress=compress))
         for k, ex in enumerate((exp, exp2, exp)):
             rk = real if real[0] != "ok" else ("ok", real[1][k])
-            K.judge(f"C19/map_expr_dags/{hname}", f"map_expr_dags({hname}, [e, e2, e], compress={compress})[{k}]", rk, ex, (e, e2, e)[k], counter="shared_cache_checks", alts=(al, al2, al)[k])
+            K.judge(f"C19/map_expr_dags/{hname}", f"map_expr_dags({hname}, [e, e2, e], compress={compress})[{k}]", rk, ex, (e, e2, e)[k], counter="shared_cache_checks")
             if real[0] != "ok":
                 break
         vc, rc = {}, {}
-        order = [(e, exp, al), (e2, exp2, al2), (e, exp, al)]
+        order = [(e, exp), (e2, exp2), (e, exp)]
         if rng.random() < 0.5:
             order.reverse()
-        for x, ex, a in order:
+        for x, ex in order:
             real = run(lambda: map_expr_dag(h, x, compress=compress, vcache=vc, rcache=rc))
-            K.judge(f"C19/map_expr_dag-shared-caches/{hname}", f"map_expr_dag({hname}, vcache=shared, rcache=shared, compress={compress})", real, ex, x, counter="shared_cache_checks", alts=a)
+            K.judge(f"C19/map_expr_dag-shared-caches/{hname}", f"map_expr_dag({hname}, vcache=shared, rcache=shared, compress={compress})", real, ex, x, counter="shared_cache_checks")
 
 
 # --------------------------------------------------------------------------- random handler tables
@@ -621,10 +623,14 @@ def random_table(K, present, kinds_op, kinds_any, p_defaults=0.85):
 
 
 def mf_handler(K, name, kind):
-    if kind == "cut":
+    if kind in ("cut", "cut_memo"):
 
         def h(self, o):
             return K.fp(name, o, ("cut",))
+
+        if kind == "cut_memo":
+            h.__name__ = name
+            h = memoized_handler(h)
 
     elif kind == "post2":
 
@@ -666,7 +672,7 @@ def make_multifunction(K, tab):
 def chk_multifunction(K, e, e2, tree, nodes, zoo_nodes):
     ctx, rng, I = K.ctx, K.rng, K.I
     present = {type(o) for o in tree}
-    tab = random_table(K, present, ["post"], ["post", "post", "post", "cut"])
+    tab = random_table(K, present, ["post"], ["post", "post", "post", "post", "post", "post", "cut", "cut_memo"])
     for n in list(tab):
         if tab[n] == "post" and n in POST2_SAFE and rng.random() < 0.3:
             tab[n] = "post2"
@@ -701,7 +707,7 @@ def chk_multifunction(K, e, e2, tree, nodes, zoo_nodes):
         kind = tab.get(name)
         if kind is None:
             raise Undefined(type(o).__name__)
-        if kind == "cut":
+        if kind in ("cut", "cut_memo"):
             return K.fp(name, o, ("cut",))
         return K.fp(name, o, [expected(x) for x in o.ufl_operands])
 
@@ -719,7 +725,7 @@ def chk_multifunction(K, e, e2, tree, nodes, zoo_nodes):
             else:
                 K.viol("C19/dispatch/MultiFunction/live", f"{type(o).__name__}: no handler among {sorted(tab)} applies, expected the undefined default to raise, got {real!r:.200}")
             continue
-        want = K.fp(name, o, ("cut",) if kind == "cut" else args)
+        want = K.fp(name, o, ("cut",) if kind in ("cut", "cut_memo") else args)
         if real != ("ok", want):
             K.viol("C19/dispatch/MultiFunction/live", f"{type(o).__name__} with handlers {sorted(tab)}: expected handler '{name}' ({kind}), the call gave {real!r:.200}")
 
@@ -735,7 +741,7 @@ def chk_multifunction(K, e, e2, tree, nodes, zoo_nodes):
         K.judge("C19/map_expr_dag-shared-caches/multifunction-table", f"map_expr_dag(MultiFunction{sorted(tab.items())}, shared caches)", real, ex, x, counter="shared_cache_checks")
         if real[0] != "ok":
             break  # a failed call leaves half filled caches behind: nothing is promised afterwards
-    if any(k == "cut" for n, k in tab.items() if n in {expected_handler_name(type(o), defined) for o in tree if not o._ufl_is_terminal_}):
+    if any(k in ("cut", "cut_memo") for n, k in tab.items() if n in {expected_handler_name(type(o), defined) for o in tree if not o._ufl_is_terminal_}):
         ctx.count("maps_with_effective_cutoff_handlers")
 
 
@@ -767,10 +773,10 @@ def chk_reuse_multifunction(K, e, tree, coefmap):
     exp = run(lambda: apply_tree(h, e, naive))
     for compress in (True, False):
         real = run(lambda: map_expr_dag(RenameMF(coefmap), e, compress=compress))
-        K.judge("C19/map_expr_dag/reuse_if_untouched-rename", f"map_expr_dag(MultiFunction(expr=reuse_if_untouched, coefficient=rename), compress={compress})", real, exp, e, alts=shared_alts(K, h, e))
+        K.judge("C19/map_expr_dag/reuse_if_untouched-rename", f"map_expr_dag(MultiFunction(expr=reuse_if_untouched, coefficient=rename), compress={compress})", real, exp, e)
     exp0 = ("ok", e)
     real = run(lambda: map_expr_dag(RenameMF({}), e))
-    K.judge("C19/map_expr_dag/reuse_if_untouched-identity", "map_expr_dag(MultiFunction(expr=reuse_if_untouched))", real, exp0, e, alts=shared_alts(K, h_rename_oracle({}), e))
+    K.judge("C19/map_expr_dag/reuse_if_untouched-identity", "map_expr_dag(MultiFunction(expr=reuse_if_untouched))", real, exp0, e)
 
 
 # --------------------------------------------------------------------------- Transformer
@@ -1053,7 +1059,7 @@ def chk_dagtraverser(K, e, e2, tree, nodes, zoo_nodes, coefmap):
     exp = run(lambda: apply_tree(h, e, len(tree) <= 1200))
     for compress in (True, False):
         real = run(lambda: RenameDT(compress=compress)(e))
-        K.judge("C19/DAGTraverser/reuse_if_untouched-rename", f"DAGTraverser(Expr=reuse_if_untouched, Coefficient=rename), compress={compress}", real, exp, e, counter="dagtraverser_checks", alts=shared_alts(K, h, e))
+        K.judge("C19/DAGTraverser/reuse_if_untouched-rename", f"DAGTraverser(Expr=reuse_if_untouched, Coefficient=rename), compress={compress}", real, exp, e, counter="dagtraverser_checks")
 
 
 # --------------------------------------------------------------------------- driver
